@@ -13,6 +13,7 @@ import (
 	"errors"
 	"fmt"
 	"strings"
+	"time"
 
 	"storj.io/drpc"
 	"storj.io/drpc/drpcerr"
@@ -661,6 +662,58 @@ func requestOfItsOwn(id string, seed uint64) runner.Result {
 	return res
 }
 
+// slowHandlerThenNext: a server that drops idle connections (InactivityTimeout). RPC 1 keeps its handler
+// busy for longer than that timeout, which is activity, not idleness; RPC 2 is issued the moment RPC 1
+// has returned. How long RPC 1 took is RPC 1's business: RPC 2 gets its own answer. (If the machine is so
+// loaded that the harness itself lets more than half the timeout pass between the two, a failure of RPC 2
+// proves nothing and the case is inconclusive.)
+func slowHandlerThenNext(id string, seed uint64) runner.Result {
+	r := &payload.SplitMix{S: seed}
+	cfg := prog.GenConfig(r, false)
+	if cfg.Net.Cap == 0 {
+		cfg.Net.Cap = -1
+	}
+	timeout := 400 * time.Millisecond
+	cfg.Server.InactivityTimeout = timeout
+	work := timeout * time.Duration(2+r.Intn(2)) / 2 * 2
+	handler := rig.HandlerFunc(func(stream drpc.Stream, rpc string) error {
+		var m []byte
+		if err := stream.MsgRecv(&m, payload.Enc{}); err != nil {
+			return err
+		}
+		if rpc == "/slow" {
+			time.Sleep(work)
+		}
+		h, _ := payload.Parse(m)
+		out := payload.Make(h.Tag, 1, 0, 0, 10)
+		return stream.MsgSend(&out, payload.Enc{})
+	})
+	rg := rig.New(rig.Config{Net: cfg.Net, Client: cfg.Client, Server: cfg.Server}, handler)
+	defer rg.Teardown()
+	desc := fmt.Sprintf("%s | server InactivityTimeout=%v: rpc 1 whose handler works for %v, then rpc 2 at once", cfg.Desc, timeout, work)
+	in := payload.Make(1, 0, 0, 0, 5)
+	var out []byte
+	if err := rg.Conn.Invoke(context.Background(), "/slow", payload.Enc{}, &in, &out); err != nil {
+		return runner.Inconcl(id, "rpc 1 failed: "+err.Error())
+	}
+	t0 := time.Now()
+	in2 := payload.Make(2, 0, 0, 0, 5)
+	var out2 []byte
+	err := rg.Conn.Invoke(context.Background(), "/fast", payload.Enc{}, &in2, &out2)
+	if err != nil && time.Since(t0) > timeout/2 {
+		return runner.Inconcl(id, "rpc 2 failed, but the harness took too long between the two calls: "+desc)
+	}
+	if err != nil {
+		return runner.Violation(id, "isolation:rpc-after-a-slow-one-fails-on-a-server-with-an-inactivity-timeout", desc+"\nrpc 2, issued right after rpc 1 returned, failed: "+rig.ErrStr(err))
+	}
+	if h, perr := payload.Parse(out2); perr != nil || h.Tag != 2 {
+		return runner.Violation(id, "isolation:unary-call-returns-another-calls-response", desc+"\nrpc 2 got an answer that is not its own")
+	}
+	res := runner.Hold(id, desc, true)
+	res.Events = 2
+	return res
+}
+
 // sentCh adapts a buffered notification channel to the closed-channel convention of QuiesceOr.
 func sentCh(c chan struct{}) <-chan struct{} {
 	out := make(chan struct{})
@@ -1027,6 +1080,11 @@ func gen(tier string, seed uint64) []runner.Scenario {
 		i := i
 		id := fmt.Sprintf("flush-parked/%d", i)
 		out = append(out, runner.Scenario{ID: id, Run: func() runner.Result { return flushParked(id, payload.Hash(seed, 0xC02F, uint64(i))) }})
+	}
+	for i := 0; i < n/20; i++ {
+		i := i
+		id := fmt.Sprintf("slow-handler-then-next/%d", i)
+		out = append(out, runner.Scenario{ID: id, Run: func() runner.Result { return slowHandlerThenNext(id, payload.Hash(seed, 0xC026, uint64(i))) }})
 	}
 	for i := 0; i < n/10; i++ {
 		i := i
